@@ -32,7 +32,7 @@ type c07Cfg struct {
 	Unready    bool   // with Hold: the failed canary's pods stop being Ready while they wait
 }
 
-var c07Faults = []string{"none", "status-reject", "status-lost", "crash-between", "spec-reject", "spec-lost", "crash-before-status"}
+var c07Faults = []string{"none", "status-reject", "status-conflict", "status-lost", "crash-between", "spec-reject", "spec-conflict", "spec-lost", "crash-before-status"}
 var c07Routes = []string{"command", "restarts", "timeout"}
 
 func (c c07Cfg) String() string {
@@ -132,6 +132,10 @@ func c07Run(rec *evid.Rec, f fataler, cfg c07Cfg) {
 		switch {
 		case call.Verb == "status-update" && cfg.Fault == "status-reject":
 			kind = sim.FaultReject
+		case call.Verb == "status-update" && cfg.Fault == "status-conflict":
+			kind = sim.FaultRejectTyped
+		case call.Verb == "update" && cfg.Fault == "spec-conflict":
+			kind = sim.FaultRejectTyped
 		case call.Verb == "status-update" && cfg.Fault == "status-lost":
 			kind = sim.FaultLostAnswer
 		case call.Verb == "status-update" && cfg.Fault == "crash-between":
@@ -294,7 +298,7 @@ func c07Run(rec *evid.Rec, f fataler, cfg c07Cfg) {
 }
 
 func TestC07Rollback(t *testing.T) {
-	rec := evid.New("TestC07Rollback", "C07", "history: first deployment, template change, canary up on its nodes, optional pause, optional elapsed duration, optionally rollout-frozen / rolling-update-paused for three minutes from the failure on (canary pods optionally not Ready meanwhile), then the canary fails by {kubectl-eds canary fail, restart storm -> auto-fail, canaryTimeout}; the rollback reconcile meets a fault of the two-write window {none, status write rejected, status applied/answer lost, stop between the writes, spec write rejected, spec applied/answer lost, stop before the status write}; then fair rounds with advancing time; oracle: within 25 rounds spec.template = active template, status.canary nil, status.activeReplicaSet unchanged, every former canary node runs one Ready pod of the active template; the failed set exists for >= 2 minutes and is deleted only with an all-zero status (rs-gc monitor); non-trivial = a canary pod existed at failure time and (no fault requested or the fault hit the window); distinct by configuration")
+	rec := evid.New("TestC07Rollback", "C07", "history: first deployment, template change, canary up on its nodes, optional pause, optional elapsed duration, optionally rollout-frozen / rolling-update-paused for three minutes from the failure on (canary pods optionally not Ready meanwhile), then the canary fails by {kubectl-eds canary fail, restart storm -> auto-fail, canaryTimeout}; the rollback reconcile meets a fault of the two-write window {none, status write rejected (generic error or Conflict), status applied/answer lost, stop between the writes, spec write rejected (generic error or Conflict), spec applied/answer lost, stop before the status write}; then fair rounds with advancing time; oracle: within 25 rounds spec.template = active template, status.canary nil, status.activeReplicaSet unchanged, every former canary node runs one Ready pod of the active template; the failed set exists for >= 2 minutes and is deleted only with an all-zero status (rs-gc monitor); non-trivial = a canary pod existed at failure time and (no fault requested or the fault hit the window); distinct by configuration")
 	t.Cleanup(func() {
 		if !t.Failed() {
 			rec.Done()
@@ -311,15 +315,21 @@ func TestC07Rollback(t *testing.T) {
 
 // TestC07Window enumerates failure route x fault position x paused x after-duration completely (fixed size).
 func TestC07Window(t *testing.T) {
-	rec := evid.New("TestC07Window", "C07", "complete product {3 failure routes} x {7 fault positions of the rollback's two-write window} x {paused or not} x {duration elapsed or not} x {replica sets or EDS reconciled first} x {no hold, rollout frozen, rolling update paused for three minutes with the canary pods not Ready} on a 3-node cluster with one canary node; oracle and non-triviality as TestC07Rollback")
+	rec := evid.New("TestC07Window", "C07", "complete product {3 failure routes} x {9 fault positions/kinds of the rollback's two-write window} x {paused or not} x {duration elapsed or not} x {replica sets or EDS reconciled first} x {no hold, rollout frozen, rolling update paused for three minutes with the canary pods not Ready} on a 3-node cluster with one canary node; oracle and non-triviality as TestC07Rollback")
 	failed := false
 	ff := &firstFail{t: t, failed: &failed}
+	shard, shards := envInt("VERIF_SHARD", 0), envInt("VERIF_SHARDS", 1)
+	i := 0
 	for _, route := range c07Routes {
 		for _, fault := range c07Faults {
 			for _, paused := range []bool{false, true} {
 				for _, after := range []bool{false, true} {
 					for _, rsFirst := range []bool{false, true} {
 						for _, hold := range []string{"", "frozen", "rolling-paused"} {
+							i++
+							if i%shards != shard {
+								continue
+							}
 							c07Run(rec, ff, c07Cfg{Nodes: 3, Replicas: "1", FailBy: route, Paused: paused, AfterDur: after, Fault: fault, ExtraEdits: rsFirst, Hold: hold, Unready: hold != ""})
 						}
 					}
